@@ -2,23 +2,42 @@
     [collapse] = collapseNestedLists, [parse] = parseNestedParens (with collapseStrings / splitOn /
     splitQuoted), [norm] = the structure with integers replaced by their decimal text.
 
-    FULL STATEMENT (the property):
-        forall x : list item, parse (collapse x) = Ok (map norm x)
-    for every nested structure of byte strings (any bytes), None and integers.  It is FALSE of the
-    current code (finding F16, [parse_collapse_roundtrip_refuted]).  Proved below: the round trip for
-    every list, of any length, of None / integers / byte strings that are sent quoted (no CR, no LF, at
-    most 1000 bytes) and contain no backslash -- any other bytes, including double quotes, braces,
-    parentheses, brackets, NIL-like text.  Nested lists and literal strings are covered by evaluation
-    only (Example nested_examples and the correspondence run), see design.d/C42.md. *)
+    The property as stated ("for any nested structure of byte strings, None and integers") is FALSE of
+    the current code: finding F16, [parse_collapse_roundtrip_refuted].  It is proved below for EVERY
+    nested structure, of any depth and size, under the exact guard [wf_item]: every byte string that is
+    sent as a quoted string (no CR, no LF, at most 1000 bytes) contains no backslash.  Strings sent as
+    literals may contain anything (backslashes included); quoted strings may contain any other byte
+    (double quotes, braces, parentheses, brackets, NIL-like text, NUL, 8-bit bytes). *)
 From Coq Require Import List NArith ZArith Bool.
-From C42 Require Import Model Proofs.
+From C42 Require Import Model Proofs ProofsNested.
 Import ListNotations.
 Local Open Scope N_scope.
 
-Theorem parse_collapse_roundtrip_partial : forall l : list item,
-  Forall flat_atom l -> parse (collapse l) = Ok (map norm l).
-Proof. exact flat_roundtrip. Qed.
-Print Assumptions parse_collapse_roundtrip_partial.
+Theorem parse_collapse_roundtrip : forall x : list item,
+  Forall wf_item x -> parse (collapse x) = Ok (map norm x).
+Proof. exact nested_roundtrip. Qed.
+Print Assumptions parse_collapse_roundtrip.
+
+(** what [wf_item] says, spelled out: at every depth, a string is either sent as a literal or is free of
+    backslashes *)
+Theorem guard_unfolded : forall l : list item,
+  (wf_item (IList l) <-> Forall wf_item l)
+  /\ (forall s, wf_item (IStr s) <-> (needs_literal s = true \/ Forall (fun b => b <> BS) s))
+  /\ wf_item INil /\ (forall z, wf_item (IInt z)).
+Proof. exact wf_item_unfold. Qed.
+Print Assumptions guard_unfolded.
+
+(** for ANY structure (no guard) the scanner frames the serialisation correctly: quoted strings,
+    literals of the announced length and nested parentheses are recognised as such *)
+Theorem serialisation_is_framed_correctly : forall x : list item,
+  scan_all (collapse x) = Ok (elems_join (map elems_piece x)).
+Proof. exact scan_all_collapse. Qed.
+Print Assumptions serialisation_is_framed_correctly.
+
+(** splitQuoted does not depend on whitespace around its input (its strip() is harmless) *)
+Theorem split_quoted_ignores_outer_whitespace : forall s : list N, split_quoted s = sq_full s.
+Proof. exact split_quoted_unstripped. Qed.
+Print Assumptions split_quoted_ignores_outer_whitespace.
 
 (** F16: a string ending in a backslash raises MismatchedQuoting; backslash-quote comes back with the
     backslash doubled; already _quote followed by splitQuoted fails on a single backslash. *)
@@ -34,15 +53,6 @@ Theorem quoted_string_roundtrip_partial : forall s : list N,
   nobs s -> split_quoted (quote s) = Ok [IStr s].
 Proof. exact quote_roundtrip. Qed.
 Print Assumptions quoted_string_roundtrip_partial.
-
-(** the serialisation of a flat list is never mis-framed by the scanner: it yields only character
-    elements whose concatenation is the input (no literal, no nesting, no error), so the whole parse is
-    splitQuoted of the text *)
-Theorem flat_serialisation_scans_as_text : forall l : list item,
-  Forall flat_atom l ->
-  exists es, scan_all (collapse l) = Ok es /\ forallb is_eb es = true /\ ebytes es = collapse l.
-Proof. intros l H. exact (scan_all_plain _ (qrun_collapse l H)). Qed.
-Print Assumptions flat_serialisation_scans_as_text.
 
 (** _quote's two replace passes are one escaping pass (backslash and double quote get a backslash) *)
 Theorem quote_is_single_pass_escape : forall s : list N, quote s = [DQ] ++ flat_map escb s ++ [DQ].
